@@ -49,11 +49,11 @@ Ints(n) == [i \in 1..n |-> IntV(i)]
 
 \* -------------------------------------------------------------- the cases
 ModVals == {None} \cup ((0 - 1)..(L + 1))
-G1 == [g : {"grid"}, len : 0..L, off : ModVals, lim : ModVals, rev : BOOLEAN]
+G1 == [g : {"grid"}, len : 0..L, off : ModVals, lim : ModVals, rev : BOOLEAN, asvar : BOOLEAN]
 G2 == {x \in [g : {"signal"}, len : 1..L, sig : {"break", "continue"}, at : 1..L, rev : BOOLEAN,
               off : {None, 1}, lim : {None, 2}] : x.at <= x.len}
-G3 == [g : {"range"}, lo : (0 - 2)..3, hi : (0 - 3)..4, rev : BOOLEAN, lim : {None, 2}]
-G4 == [g : {"tablerow"}, len : 0..L, cols : {None} \cup (0..(L + 1)), lim : {None, 3}]
+G3 == [g : {"range"}, lo : (0 - 2)..3, hi : (0 - 3)..4, rev : BOOLEAN, lim : {None, 2}, asvar : BOOLEAN]
+G4 == [g : {"tablerow"}, len : 0..L, cols : {None} \cup (0..(L + 1)), lim : {None, 3}, off : {None, 1}]
 G5 == [g : {"coll"}, coll : {"nil", "undef", "empty", "map0", "map1", "map3", "nilmap", "nilslice", "nilptr", "dropnil", "dropempty"}]
 G6 == [g : {"cycle"}, len : 1..L, nvals : 1..3, grouped : BOOLEAN, twice : BOOLEAN]
 G7 == {x \in [g : {"nest"}, outer : 1..3, inner : 1..3, sig : {"break", "continue"}, at : 1..3] : x.at <= x.inner}
@@ -61,9 +61,13 @@ G7 == {x \in [g : {"nest"}, outer : 1..3, inner : 1..3, sig : {"break", "continu
 G8 == [g : {"cycnest"}, outer : 1..3, len : 1..L, nvals : 2..3, grouped : BOOLEAN]
 Cases == G1 \cup G2 \cup G3 \cup G4 \cup G5 \cup G6 \cup G7 \cup G8
 
+\* a modifier is written as a literal or as a variable holding the number
+OV == <<111, 102>>
+LV == <<108, 109>>
+AsVar(x) == "asvar" \in DOMAIN x /\ x.asvar
 ModFields(x) ==
-  (IF "off" \in DOMAIN x /\ x.off # None THEN [off |-> Lit(IntV(x.off))] ELSE <<>>)
-  @@ (IF "lim" \in DOMAIN x /\ x.lim # None THEN [lim |-> Lit(IntV(x.lim))] ELSE <<>>)
+  (IF "off" \in DOMAIN x /\ x.off # None THEN [off |-> IF AsVar(x) THEN Var(OV) ELSE Lit(IntV(x.off))] ELSE <<>>)
+  @@ (IF "lim" \in DOMAIN x /\ x.lim # None THEN [lim |-> IF AsVar(x) THEN Var(LV) ELSE Lit(IntV(x.lim))] ELSE <<>>)
   @@ (IF "rev" \in DOMAIN x /\ x.rev THEN [rev |-> TRUE] ELSE <<>>)
 
 Letters == <<T(<<112>>), T(<<113>>), T(<<114>>)>>     \* p q r
@@ -80,8 +84,9 @@ ProgOf(x) ==
              else |-> ElseBody] @@ ModFields(x),
             Ob(Var(X)) >>
     [] x.g = "range" ->
-         << [t |-> "for", tag |-> "for", var |-> X, coll |-> [t |-> "range", a |-> Lit(IntV(x.lo)), b |-> Lit(IntV(x.hi))],
-             body |-> Probe(X), else |-> ElseBody] @@ ModFields(x) >>
+         << [t |-> "for", tag |-> "for", var |-> X,
+             coll |-> [t |-> "range", a |-> IF x.asvar THEN Var(OV) ELSE Lit(IntV(x.lo)), b |-> IF x.asvar THEN Var(<<104, 105>>) ELSE Lit(IntV(x.hi))],
+             body |-> Probe(X), else |-> ElseBody] @@ (IF x.lim # None THEN [lim |-> Lit(IntV(x.lim))] ELSE <<>>) @@ (IF x.rev THEN [rev |-> TRUE] ELSE <<>>) >>
     [] x.g = "tablerow" ->
          << [t |-> "for", tag |-> "tablerow", var |-> X, coll |-> Var(A), body |-> <<Ob(Var(X))>>]
             @@ (IF x.cols # None THEN [cols |-> Lit(IntV(x.cols))] ELSE <<>>) @@ ModFields(x) >>
@@ -115,7 +120,9 @@ ProgOf(x) ==
 
 MapN(n) == MapV([i \in 1..n |-> << <<106 + i>>, IntV(i) >>])        \* keys k, l, m
 EnvOf2(x) ==
-  CASE x.g \in {"grid", "signal", "tablerow", "cycle", "cycnest"} -> << <<A, Arr(Ints(x.len))>>, <<X, Str(<<111>>)>> >>
+  CASE x.g = "grid" /\ x.asvar -> << <<A, Arr(Ints(x.len))>>, <<X, Str(<<111>>)>>, <<OV, IntV(IF x.off = None THEN 0 ELSE x.off)>>, <<LV, IntV(IF x.lim = None THEN 0 ELSE x.lim)>> >>
+    [] x.g = "range" /\ x.asvar -> << <<OV, IntV(x.lo)>>, <<<<104, 105>>, IntV(x.hi)>> >>
+    [] x.g \in {"grid", "signal", "tablerow", "cycle", "cycnest"} -> << <<A, Arr(Ints(x.len))>>, <<X, Str(<<111>>)>> >>
     [] x.g = "coll" -> (CASE x.coll = "nil" -> << <<A, Nil>> >>
                           [] x.coll = "undef" -> <<>>
                           [] x.coll = "empty" -> << <<A, Arr(<<>>)>> >>
@@ -155,7 +162,7 @@ DeclOut(x) ==
              sel == Selected(items, x.rev, None, x.lim)
          IN  IF sel = <<>> THEN <<69>> ELSE ProbeAll(sel)
     [] x.g = "tablerow" ->
-         LET sel == Selected(Ints(x.len), FALSE, None, x.lim)
+         LET sel == Selected(Ints(x.len), FALSE, x.off, x.lim)
              n == Len(sel)
              cols == IF x.cols = None \/ x.cols <= 0 THEN n + 1 ELSE x.cols
              cell(k) == (IF (k - 1) % cols = 0 THEN TrOpen(((k - 1) \div cols) + 1) ELSE <<>>)
@@ -214,11 +221,11 @@ RestoredOutside ==
 StepBound == st.steps <= 40 * (L + 3) * 4
 
 IdOf(x) ==
-  CASE x.g = "grid" -> "grid-" \o ToString(x.len) \o "-" \o ToString(x.off) \o "-" \o ToString(x.lim) \o "-" \o ToString(x.rev)
+  CASE x.g = "grid" -> "grid-" \o ToString(x.len) \o "-" \o ToString(x.off) \o "-" \o ToString(x.lim) \o "-" \o ToString(x.rev) \o "-" \o ToString(x.asvar)
     [] x.g = "signal" -> "sig-" \o ToString(x.len) \o "-" \o x.sig \o "-" \o ToString(x.at) \o "-" \o ToString(x.rev)
                          \o "-" \o ToString(x.off) \o "-" \o ToString(x.lim)
-    [] x.g = "range" -> "range-" \o ToString(x.lo) \o "-" \o ToString(x.hi) \o "-" \o ToString(x.rev) \o "-" \o ToString(x.lim)
-    [] x.g = "tablerow" -> "row-" \o ToString(x.len) \o "-" \o ToString(x.cols) \o "-" \o ToString(x.lim)
+    [] x.g = "range" -> "range-" \o ToString(x.lo) \o "-" \o ToString(x.hi) \o "-" \o ToString(x.rev) \o "-" \o ToString(x.lim) \o "-" \o ToString(x.asvar)
+    [] x.g = "tablerow" -> "row-" \o ToString(x.len) \o "-" \o ToString(x.cols) \o "-" \o ToString(x.lim) \o "-" \o ToString(x.off)
     [] x.g = "coll" -> "coll-" \o x.coll
     [] x.g = "cycle" -> "cyc-" \o ToString(x.len) \o "-" \o ToString(x.nvals) \o "-" \o ToString(x.grouped) \o "-" \o ToString(x.twice)
     [] x.g = "cycnest" -> "cycnest-" \o ToString(x.outer) \o "-" \o ToString(x.len) \o "-" \o ToString(x.nvals) \o "-" \o ToString(x.grouped)
